@@ -136,7 +136,7 @@ func (prop) Generate(rng *core.Rand, tier string, emit0 func(string)) {
 			emit0(l)
 		}
 	}()
-	nCA, nAS, nFaultAS := 700, 50, 24
+	nCA, nAS, nFaultAS := 1400, 70, 40
 	switch tier {
 	case "thorough":
 		nCA, nAS, nFaultAS = 30000, 500, 300
@@ -165,6 +165,32 @@ func (prop) Generate(rng *core.Rand, tier string, emit0 func(string)) {
 			emit(fmt.Sprintf("ca l:5ca;l:%d%s;s:-;l:-", k, m))     // twice in a row (intermediate)
 			emit(fmt.Sprintf("ca s:-;s:7ca;l:%d%s;l:-;l:-", k, m)) // interrupted renewal, interrupted again
 		}
+	}
+	// tampering (values deleted or copied over one another between start-ups): reaches the
+	// decode-error branches and the signer/parent mismatch; no promise is made, model = code only
+	emit("ca l:-;d:rk;l:-;c:ik>rk;l:-;d:ic;l:-;c:rk>rc;l:-;c:ic>ik;l:-")
+	emit("ca l:-;c:rc>ik;l:-;c:rk>ic;l:-")
+	emit("ca l:-;c:rc>rk;l:-;s:-")
+	emit("ca s:-;d:ik;l:-;l:-")
+	emit("ca l:-;d:rc;l:-;l:-")
+	keyNames := []string{"rc", "rk", "ic", "ik"}
+	for c := 0; c < nCA/20; c++ {
+		var evs []string
+		for i, n := 0, 2+rca.Intn(6); i < n; i++ {
+			switch rca.Intn(4) {
+			case 0:
+				evs = append(evs, "d:"+rca.Pick(keyNames))
+			case 1:
+				evs = append(evs, "c:"+rca.Pick(keyNames)+">"+rca.Pick(keyNames))
+			default:
+				f := "-"
+				if rca.Chance(1, 3) {
+					f = caFault(rca, 11)
+				}
+				evs = append(evs, life(rca, 1, 3)+":"+f)
+			}
+		}
+		emit("ca " + strings.Join(evs, ";"))
 	}
 	emit("ca l:-")
 	emit("ca s:-")
@@ -265,7 +291,7 @@ func (prop) Generate(rng *core.Rand, tier string, emit0 func(string)) {
 	}
 
 	// ---- malformed
-	bad := []string{"ca", "ca ", "ca x", "ca l", "ca l:", "ca l:0cb", "ca l:3xx", "ca m:-", "ca l:-;", "ca l:-;;l:-", "ca l:-3cb",
+	bad := []string{"ca", "ca ", "ca x", "ca l", "ca l:", "ca l:0cb", "ca l:3xx", "ca m:-", "ca l:-;", "ca l:-;;l:-", "ca l:-3cb", "ca d:xx", "ca c:rc", "ca c:rc>zz", "ca d:", "ca c:rc>rk>ik",
 		"as", "as L", "as L1", "as L1:d", "as L1:q:-", "as L1:d:K0", "as L1:d:X1", "as L1:dd:-", "as Lx:d:-", "as R;", "as L1:d:K1;L2:d:F1",
 		"zz l:-", "ca l:- extra", "as L1:dff:-", "ca l:1cb:2", "as L1:d:-:3"}
 	for _, b := range bad {
